@@ -291,13 +291,14 @@ extern MPT_INTERFACE(input) *mpt_stream_input(const MPT_STRUCT(socket) *from, in
 	if (!(tmp._rd._dec = mpt_message_decoder(code))) {
 		return 0;
 	}
-	/* set temporary data, no resource leakage on error */
-	if (mpt_stream_dopen(&tmp, from, mode) < 0) {
-		errno = EINVAL;
+	/* descriptor stays with caller on error: take it over when nothing can fail any more */
+	if (!(srm = malloc(sizeof(*srm) + idlen))) {
 		return 0;
 	}
-	if (!(srm = malloc(sizeof(*srm) + idlen))) {
-		mpt_stream_close(&tmp);
+	/* set temporary data, no resource leakage on error */
+	if (mpt_stream_dopen(&tmp, from, mode) < 0) {
+		free(srm);
+		errno = EINVAL;
 		return 0;
 	}
 	srm->_in._vptr = &streamInput;
